@@ -13,8 +13,13 @@
 //! Oracle (decides violations): brute force over the 240 non-system entries of the standard xterm
 //! palette (cube levels 00 5f 87 af d7 ff, greys 08 + 10 i), converted by the library's own
 //! `LinColor::from(RGBA)`, compared by the library's own `LinColor::distance`:
-//! `d(chosen) <= d(best) * (1 + 1e-3)`.  Gray depth: level nearest by luma among 0, .33, .66, 1 and
-//! monotone in luma; TrueColor: parameters are exactly `r;g;b`; every role carries its own selector.
+//! `d(chosen) <= d(best) * (1 + 1e-3)`.  If a CUBE / GREYS constant is off its exact sRGB value by more than
+//! 1.5e-6 (accurate 6-digit constants are within 5e-7 and cost at most 3.7e-6 relative on all 2^24 colours),
+//! the tolerance is 1e-5 instead, so that every choice changed by the drifted constant yields a witness.
+//! Gray depth: the luminance is the library's own `Color::luma()` (public trait); the level must be the
+//! nearest of the nominal levels 0, .33, .66, 1 (inline literal of the source, not readable through an
+//! add-only hook: recorded as an assumption) and must not decrease when `luma()` increases (order only).
+//! TrueColor: parameters are exactly `r;g;b`; every role carries its own selector.
 use serde_json::{Value, json};
 use std::collections::HashSet;
 use surf_n_term::encoder::{ColorDepth, Encoder, TTYEncoder, verif_c20};
@@ -22,6 +27,11 @@ use surf_n_term::{Color, Face, FaceAttrs, FaceModify, LinColor, RGBA, TerminalCa
 use verif_harness::{Cfg, guarded, out::Out, out::hex, r#gen::Rng};
 
 const REL_TOL: f64 = 1e-3; // the property's "visibly closer"
+/// tolerance used instead when a table constant is off the exact sRGB value by more than `DRIFT_LIMIT`:
+/// accurate tables (6 digits) cause at most 3.7e-6 on all 2^24 colours, so anything above 1e-5 is a choice
+/// changed by the drifted constant
+const REL_TOL_DRIFT: f64 = 1e-5;
+const DRIFT_LIMIT: f64 = 1.5e-6;
 const TIE_REL: f64 = 1e-4; // squared-distance margin below which f32 rounding may decide
 const ROLES: [&str; 3] = ["fg", "bg", "ul"];
 const ROLE_CODE: [u32; 3] = [38, 48, 58];
@@ -284,6 +294,8 @@ struct Ctx {
     seen: Vec<u64>,
     thorough: bool,
     // statistics
+    rel_tol: f64,
+    drift: f64,
     n_colors: u64,
     n_tie: u64,
     n_f32_subopt: u64,
@@ -304,9 +316,6 @@ struct Ctx {
     luma_exp: String,
 }
 
-fn luma_exact_int(r: u8, g: u8, b: u8) -> i64 {
-    2126 * r as i64 + 7152 * g as i64 + 722 * b as i64 // = 10000 * 255 * luma
-}
 
 impl Ctx {
     fn lin3(&self, r: u8, g: u8, b: u8) -> [f32; 3] {
@@ -367,7 +376,7 @@ impl Ctx {
             }
         }
         let d_chosen = self.lib_dist(c, &self.std, e);
-        if d_chosen > d_best && d_chosen <= d_best * (1.0 + REL_TOL) + 1e-7 {
+        if d_chosen > d_best && d_chosen <= d_best * (1.0 + self.rel_tol) + 1e-7 {
             self.n_subopt_std += 1;
             if self.subopt_list.len() < 64 {
                 self.subopt_list.push([r, g, b]);
@@ -375,13 +384,17 @@ impl Ctx {
         }
         if d_best > 0.0 {
             let ex = d_chosen / d_best - 1.0;
-            if ex > self.max_rel_excess && ex <= REL_TOL {
+            if ex > self.max_rel_excess && ex <= self.rel_tol {
                 self.max_rel_excess = ex;
             }
         }
-        if d_chosen > d_best * (1.0 + REL_TOL) + 1e-7 {
+        if d_chosen > d_best * (1.0 + self.rel_tol) + 1e-7 {
             self.out.fail(
-                "256-colour palette entry is not the closest one (LinColor::distance, tolerance 1e-3)",
+                if self.rel_tol == REL_TOL {
+                    "256-colour palette entry is not the closest one (LinColor::distance, tolerance 1e-3)"
+                } else {
+                    "256-colour palette entry is not the closest one: choice changed by a table constant that is off its sRGB value (tolerance 1e-5)"
+                },
                 input,
                 json!({"index": self.std.idx[e_best], "distance": d_best}),
                 json!({"index": index, "distance": d_chosen}),
@@ -509,8 +522,9 @@ impl Ctx {
     fn gray(&mut self, r: u8, g: u8, b: u8, sample: bool, luma_corr: bool) {
         let rgba = RGBA::new(r, g, b, 255);
         let luma = rgba.luma();
-        let li = luma_exact_int(r, g, b);
-        let le = li as f64 / 2_550_000.0;
+        // luminance = the library's own `Color::luma` (public trait); order key = its bit pattern
+        let li = luma.to_bits() as i64;
+        let le = luma as f64;
         let nearest_d = GRAY_NOMINAL.iter().map(|l| (le - l).abs()).fold(f64::INFINITY, f64::min);
         let lint = self.luma_int(luma);
         // within rounding of a decision point of the f32 table?
@@ -540,10 +554,10 @@ impl Ctx {
                             fg_level = Some(lv);
                             self.gray_levels[lv] += 1;
                         }
-                        if (le - GRAY_NOMINAL[lv]).abs() > nearest_d + 1e-5 {
+                        if (le - GRAY_NOMINAL[lv]).abs() > nearest_d + 1e-6 {
                             let want = (0..4).find(|j| (le - GRAY_NOMINAL[*j]).abs() == nearest_d).unwrap_or(0);
                             self.out.fail(
-                                "grey depth: selected level is not the nearest of the four by luma",
+                                "grey depth: selected level is not the nearest of the four (0, .33, .66, 1) by the library's luma()",
                                 json!({"depth": "gray", "role": ROLES[role], "r": r, "g": g, "b": b}),
                                 json!({"level": want, "code": GRAY_CODES[want] + 10 * role as u32}),
                                 json!({"level": lv, "code": got}),
@@ -687,16 +701,16 @@ impl Ctx {
 
     /// monotonicity of the grey level in luma, over everything evaluated
     fn gray_monotone(&mut self) {
-        const TOL: i64 = 26; // 1e-5 in units of 1 / 2 550 000
+        // order only: a colour with a strictly larger library luma() must not get a lower level
         for role in 0..2 {
             for lo in 0..4 {
                 for hi in lo + 1..4 {
                     let (a, b) = (self.gmax[role][lo], self.gmin[role][hi]);
-                    if a.set && b.set && a.l > b.l + TOL {
+                    if a.set && b.set && a.l > b.l {
                         self.out.fail(
                             "grey depth: level is not monotone in luma",
                             json!({"depth": "gray", "role": ROLES[role], "r": a.rgb[0], "g": a.rgb[1], "b": a.rgb[2],
-                                   "other": b.rgb, "luma_x2550000": a.l, "other_luma_x2550000": b.l}),
+                                   "other": b.rgb, "luma": f32::from_bits(a.l as u32), "other_luma": f32::from_bits(b.l as u32)}),
                             json!(format!("level of the brighter colour >= {hi}")),
                             json!(format!("brighter colour got level {lo}, darker colour level {hi}")),
                         );
@@ -782,10 +796,12 @@ impl Ctx {
 }
 
 /// bytes whose linear value is adjacent to a decision point (midpoint) of `tab`, plus the nearest bytes to the entries
-fn boundary_bytes(lin: &[f32], tab: &[f32]) -> Vec<u8> {
+fn boundary_bytes(lin: &[f32], tab: &[f32], exact: &[f64]) -> Vec<u8> {
     let mut res = Vec::new();
     let mut marks: Vec<f64> = tab.iter().map(|x| *x as f64).collect();
     marks.extend(tab.windows(2).map(|w| (w[0] as f64 + w[1] as f64) / 2.0));
+    // ... and of the exact sRGB palette (differs from `tab` only when a constant drifted)
+    marks.extend(exact.windows(2).map(|w| (w[0] + w[1]) / 2.0));
     for m in marks {
         let p = lin.partition_point(|x| (*x as f64) < m) as i64;
         for d in -2..=1 {
@@ -816,8 +832,23 @@ fn main() {
     let mut rng = Rng::new(cfg.seed);
     let std_p = Palette::standard();
     let tab_p = Palette::from_tables(&t);
-    let bc = boundary_bytes(&t.lin, &t.cube);
-    let bg = boundary_bytes(&t.lin, &t.greys);
+    // exact sRGB -> linear images of the palette levels; drift of the implementation's constants from them
+    let srgb = |c: u8| -> f64 {
+        let s = c as f64 / 255.0;
+        if s <= 0.04045 { s / 12.92 } else { ((s + 0.055) / 1.055).powf(2.4) }
+    };
+    let exact_cube: Vec<f64> = STD_CUBE.iter().map(|c| srgb(*c)).collect();
+    let exact_greys: Vec<f64> = (0..24u32).map(|i| srgb((8 + 10 * i) as u8)).collect();
+    let drift_of = |tab: &[f32], exact: &[f64]| -> f64 {
+        if tab.len() != exact.len() {
+            return f64::INFINITY;
+        }
+        tab.iter().zip(exact).map(|(a, b)| (*a as f64 - b).abs()).fold(0.0, f64::max)
+    };
+    let drift = drift_of(&t.cube, &exact_cube).max(drift_of(&t.greys, &exact_greys));
+    let rel_tol = if drift > DRIFT_LIMIT { REL_TOL_DRIFT } else { REL_TOL };
+    let bc = boundary_bytes(&t.lin, &t.cube, &exact_cube);
+    let bg = boundary_bytes(&t.lin, &t.greys, &exact_greys);
     let mut ctx = Ctx {
         out,
         std: std_p,
@@ -828,6 +859,8 @@ fn main() {
         et: Enc::new(ColorDepth::TrueColor),
         seen: vec![0u64; 1 << 18],
         thorough: cfg.thorough,
+        rel_tol,
+        drift,
         n_colors: 0,
         n_tie: 0,
         n_f32_subopt: 0,
@@ -975,6 +1008,8 @@ fn main() {
         "chose_grey_ramp": ctx.n_grey,
         "gray_levels_fg": ctx.gray_levels,
         "scale_bits": ctx.t.k,
+        "max_drift_of_table_constants_from_exact_srgb": if ctx.drift.is_finite() { json!(ctx.drift) } else { json!("table length differs") },
+        "oracle_relative_tolerance": ctx.rel_tol,
         "boundary_bytes_cube": bc,
         "boundary_bytes_greys": bg,
         "thorough": ctx.thorough,
